@@ -42,7 +42,10 @@ def fmtOut (s : St) : Out → String
     let st := match s.mods[m]? with | some md => stLetter md.state | none => "?"
     s!"INVOKE {cb.name} {handleOf s m}:{st}" ++ String.join (evts.map fun e => " " ++ fmtEvt s e)
   | .free p => s!"free p{p}"
-  | .close w => s!"close {w}"
+  | .close (.fd k) => s!"close fd:{k}"
+  | .close (.dup k) => s!"close dup:{k}"
+  | .close .pipeR => "close pipe-r"
+  | .close .pipeW => "close pipe-w"
   | .note t => t
 
 def dump (s : St) : String :=
